@@ -67,8 +67,8 @@ def _judge_tiling(ctx, name, l, census, degree, rep, colouring=None):
     cnt = Counter(int(p.n_sides) for p in l.plaquettes)
     if set(cnt) != set(census) or any(abs(cnt[k] - census[k] * F) > 1e-9 for k in census):
         rep(f"polygon census {dict(cnt)} is not the advertised one {census}"); return
-    if not np.all(l.vertices.coordination_numbers == degree):
-        rep(f"coordination numbers {sorted(set(l.vertices.coordination_numbers.tolist()))}, expected {degree}"); return
+    if not np.all(core.degrees(l) == degree):
+        rep(f"coordination numbers {sorted(set(core.degrees(l).tolist()))}, expected {degree}"); return
     a = areas(l)
     if np.any(a <= 0) or abs(a.sum() - 1) > 1e-9:
         rep(f"plaquette areas sum to {a.sum()}"); return
@@ -194,7 +194,7 @@ def run(ctx):
         l = call(name, lambda: eg.higher_coordination_number_example(n), rep)
         if l is not None:
             ok = safe(lambda: l.n_vertices == n + 1 and l.n_edges == 2 * n and l.n_plaquettes == n and all(p.n_sides == 3 for p in l.plaquettes)
-                      and l.vertices.coordination_numbers[n] == n and np.all(l.vertices.coordination_numbers[:n] == 3))
+                      and core.degrees(l)[n] == n and np.all(core.degrees(l)[:n] == 3))
             if not ok:
                 rep("not an n-spoked wheel (n triangles about an n-coordinated centre)")
             model_cmp(ctx, reqs, meta, name, dict(kind="wheel", n=n), l); ctx.case(name)
@@ -203,7 +203,7 @@ def run(ctx):
             name = f"n_ladder({n},{wob})"; rep = mk(name, gen="ladder", n=n, wobble=wob)
             l = call(name, lambda: eg.n_ladder(n, wob), rep)
             if l is None: continue
-            ok = safe(lambda: l.n_vertices == 2 * n and l.n_edges == 3 * n and np.all(l.vertices.coordination_numbers == 3)
+            ok = safe(lambda: l.n_vertices == 2 * n and l.n_edges == 3 * n and np.all(core.degrees(l) == 3)
                       and l.n_plaquettes == n and all(p.n_sides == 4 for p in l.plaquettes))
             if not ok:
                 rep(f"not an n-rung periodic ladder (V={l.n_vertices}, E={l.n_edges})")
